@@ -356,10 +356,36 @@ def rule_stable_softmax(repo, rep):
         raw = e.args and isinstance(e.args[0], ast.UnaryOp) and \
             isinstance(e.args[0].op, ast.USub) and \
             isinstance(e.args[0].operand, ast.Name)
+        # row-minimum shift `d -= d.min(axis=1)[:, None]`: stable exactly when
+        # the minimum is taken after the self-exclusion (otherwise it is the
+        # zero self-distance and nothing is shifted)
+        dname = e.args[0].operand.id if raw else None
+        shifts = [n for n in ast.walk(f.node) if isinstance(n, ast.AugAssign)
+                  and isinstance(n.op, ast.Sub) and dname and
+                  ast.unparse(n.target) == dname and
+                  ('%s.min(axis=1)' % dname in ast.unparse(n.value) or
+                   'np.min(%s, axis=1)' % dname in ast.unparse(n.value))]
+        fills = [c for c in astutil.calls_in(f.node)
+                 if canon(repo.dotted(f.module, c.func) or '') ==
+                 canon('numpy.fill_diagonal') and c.args and
+                 ast.unparse(c.args[0]) == dname]
         if raw and not shifted:
           rep.refuted(R, key, site(f, e), 'soft-max computed as exp(%s) '
                       'without the logsumexp normaliser: it underflows for '
                       'large-scale features' % arg)
+        elif raw and shifts and fills and 'logsumexp' not in src and \
+                'softmax' not in src:
+          if all(sh.lineno > fills[0].lineno for sh in shifts) and \
+                  all(sh.lineno < e.lineno for sh in shifts):
+            rep.derived(R, key, site(f, e),
+                        sample=dict(rule=R, function=key,
+                                    softmax='row-minimum shift after the '
+                                    'self-exclusion'))
+          else:
+            rep.refuted(R, key, site(f, e), 'the row minimum is subtracted '
+                        'before the self-exclusion (np.fill_diagonal): it is '
+                        'the zero self-distance, nothing is shifted and '
+                        'exp(%s) underflows for large-scale features' % arg)
         else:
           rep.unknown(R, key, site(f, e), 'exponential %s: not the '
                       'documented soft-max form, stability not decided'
